@@ -2,5 +2,5 @@
 EXTENDS Track
 CharsAll   == {"a", "sp", "hash", "bang", "quote", "star", "qmark", "lbr", "rbr", "bslash", "tab", "nonascii", "dot"}
 PatsQuick  == { <<"star", "dot", "a">>, <<"a", "qmark">>, <<"a", "sp", "star">>, <<"hash", "star">> }
-PreAll     == {"absent", "commented", "crlf"}
+PreAll     == {"absent", "commented", "crlf", "noeol", "oneline", "oneline-plain"}
 =============================================================================
